@@ -72,7 +72,7 @@ func (propC03) Gen(r *Rng, run uint64, tier string) *Plan {
 
 var frameKindsAll = []string{FrameSysProse, FrameSysLine, FrameBadTimestamp, FrameNoSpace, FrameEmptyPayload}
 
-func (propC03) Expand(p *Plan) []*Plan {
+func (propC03) Expand(t *testing.T, p *Plan) []*Plan {
 	sweep := p.Tags["sweep"]
 	if sweep == "" {
 		return []*Plan{p}
